@@ -1234,7 +1234,8 @@ class System:
         
         privacy = PrivacyClass.PUBLIC
         if ob.name.startswith('_') and \
-               not (ob.name.startswith('__') and ob.name.endswith('__')):
+               not (len(ob.name) >= 4 and ob.name.startswith('__') and ob.name.endswith('__')):
+            # A dunder is '__*__': '__' and '___' have nothing but the same underscores at both ends.
             privacy = PrivacyClass.PRIVATE
         elif isinstance(ob, Module) and ob.name == '__main__':
             # Scripts are private by default; like any default, a --privacy rule overrides it.
